@@ -154,8 +154,7 @@ def check(run):
     for k in (0, len(icases) // 2, len(icases) - 1):
         run.sample({"why": why[k][:300], "model": mo[k][:300], "impl": io[k][:300]})
     report_diffs(run, diffs, "coq/Sequence.v (upload_loop)", "WriteFile::into_stream", "seq")
-    if any(not v.get("no_failing_input_found") for v in run.violations):
-        run.violations = [v for v in run.violations if not v.get("no_failing_input_found")]
+    vlib.prefer_concrete(run)
     return vlib.finish(run, trusted_base=TB, assumptions=["file sizes < 2^32", "read_at returns a full block before end of file (regular files)",
                                                            "the manifest is compared as a set (the source iterates a HashMap)"])
 
